@@ -303,7 +303,19 @@ pub fn run(ctx: &mut Ctx) {
                             }
                         }
                     }
-                    if !extreme && (gap < pmin.floor() - 1.0 || gap > pmax.ceil() + 1.0) {
+                    // steepest fall of the period over the span, in samples per sample: when the
+                    // pulse fires the counter exceeds the period by less than 1 + fall, and that
+                    // surplus shortens the next gap; at a fall of one or more the counter can hold
+                    // several periods at once (only the conservation law above applies then)
+                    let mut fall: f64 = 0.0;
+                    for tt in lt.max(1)..=t {
+                        let (qa, qb) = (period(lf0s[tt - 1]), period(lf0s[tt]));
+                        if qa != 0.0 && qb != 0.0 {
+                            fall = fall.max((qa - qb) / fperiod as f64);
+                        }
+                    }
+                    ctx.count(if fall < 1.0 { "glide_gaps_checked" } else { "glide_gaps_steep_fall_skipped" }, 1.0);
+                    if !extreme && fall < 1.0 && (gap < pmin - 1.0 - fall - 1e-9 * pmin || gap > pmax.ceil() + 1.0) {
                         ctx.violation(
                             "glide-pulse-gap",
                             descr(J::obj().set("frame", t).set("gap", gap).set("period_range", J::Arr(vec![J::Num(pmin), J::Num(pmax)]))),
